@@ -2,6 +2,7 @@
    models of Mpir/Model/Mpz.lean, with `ok = true`. -/
 import Mpir.Model.AllocSafeMpz
 import MpirProofs.Lemmas.AllocSafe
+import Mathlib.Tactic.Set
 namespace Mpir.AllocSafe
 open Mpir
 open Mpir.Mpz (sgn diffSign Norm natAbs_sgn)
@@ -77,6 +78,53 @@ theorem tail_carry (s : St) (w : Nat) (r : List Nat) (cy k : Nat) (neg c : Bool)
     simp only [s2, St.store, s1]
     rw [wr_other _ _ _ (by simpa using hx), wr_other _ _ _ (by simpa using hx)]; rfl
 
+@[simp] theorem setSize_chk_h (s : St) (b : Bool) (x : Nat) (n : Int) : ((s.chk b).setSize x n).h = (s.setSize x n).h := rfl
+@[simp] theorem add_zero_ptr (p : Ptr) : p.add 0 = p := by cases p; rfl
+
+/-- store `r` at wp[0, |r|), set the size to z with |z| ≤ |r| -/
+theorem tail_take (s : St) (w : Nat) (r : List Nat) (z : Int) (c : Bool) (hs : s.ok = true) (hc : c = true)
+    (hb : BWF (s.h w).buf) (hl : Limbs r) (hr : r.length ≤ (s.h w).buf.alloc) (hz : z.natAbs ≤ r.length) :
+    Refines s (((s.chk c).wr (s.PTR w) r).setSize w z) w ⟨(s.h w).buf.alloc, z, r.take z.natAbs⟩ := by
+  have hlimbs : (((s.chk c).wr (s.PTR w) r).h w).buf.limbs = r ++ (s.h w).buf.limbs.drop r.length := by
+    have := wr_limbs (s.chk c) (s.PTR w) r (by simpa using hr)
+    simpa using this
+  refine ⟨?_, ?_, ?_, ?_⟩
+  · simp [wr_ok, hs, hc, hr]
+  · simp only [view, setSize_size, setSize_buf, hlimbs, wr_alloc, chk_h]
+    rw [List.take_append_of_le_length hz]
+  · simp only [setSize_buf]; exact wr_BWF _ _ hl _ hb
+  · intro x hx
+    rw [setSize_other _ _ _ hx, wr_other _ _ _ (by simpa using hx)]; rfl
+
+/-- store `r` (n ≥ 1 limbs) at wp[0, n), read wp[n-1], size = n - (wp[n-1] == 0) -/
+theorem tail_strip (s : St) (w : Nat) (r : List Nat) (neg c : Bool) (hs : s.ok = true) (hc : c = true)
+    (hb : BWF (s.h w).buf) (hl : Limbs r) (hr : r.length ≤ (s.h w).buf.alloc) (hne : r ≠ []) :
+    let s1 := (s.chk c).wr (s.PTR w) r
+    let ld := s1.load (s.PTR w) (r.length - 1)
+    let n := r.length - (if ld.1 == 0 then 1 else 0)
+    ld.1 = Mpz.topLimb r ∧
+    Refines s (ld.2.setSize w (sgn neg n)) w ⟨(s.h w).buf.alloc, sgn neg n, r.take n⟩ := by
+  intro s1 ld n
+  have hpos : 1 ≤ r.length := List.length_pos_iff.mpr hne
+  have hlimbs : (s1.h w).buf.limbs = r ++ (s.h w).buf.limbs.drop r.length := by
+    have := wr_limbs (s.chk c) (s.PTR w) r (by simpa using hr)
+    simpa using this
+  have hp : s.PTR w = s1.PTR w := by simp [s1]
+  have hld : ld.1 = Mpz.topLimb r := by
+    simp only [ld, St.load, hp, rd_PTR_add, hlimbs, Mpz.topLimb]
+    rw [List.drop_append_of_le_length (by omega)]
+    rcases List.eq_nil_or_concat r with h0 | ⟨l, b, rfl⟩
+    · exact absurd h0 hne
+    · simp
+  have R := tail_take s w r (sgn neg n) c hs hc hb hl hr (by rw [natAbs_sgn]; omega)
+  refine ⟨hld, ?_, ?_, ?_, ?_⟩
+  · simp only [ld, St.load, setSize_ok, chk_ok, hp, rdOk_PTR_add]
+    simp [s1, wr_ok, hs, hc, hr]; omega
+  · have := R.view; simpa [natAbs_sgn, ld, St.load, s1] using this
+  · have := R.bwf; simpa [ld, St.load, s1] using this
+  · intro x hx; have := R.frame x hx
+    simpa [ld, St.load, s1] using this
+
 /-! ## reading a source after MPZ_REALLOC -/
 
 /-- after `MPZ_REALLOC (w, n)`, `PTR (x)[0, k)` for k ≤ |SIZ x| is in range and holds the limbs it held
@@ -138,12 +186,12 @@ theorem aorsCore_refines (s : St) (w u v : Nat) (us vs : Int) (hs : s.ok = true)
       simp only [mpn_cmp, ea, eb', oka, okb', Bool.and_self]
       split
       · obtain ⟨_, _, sl, sn⟩ := Mpz.K.sub_n_val _ _ hLv hLu (by omega : (view (s.h v)).d.length = (view (s.h u)).d.length)
-        simp only [mpn_sub_n, chk_rd, chk_rdOk, ea, eb', oka, okb', Bool.and_self, chk_PTR]
+        simp only [mpn_sub_n, chk_rd, chk_rdOk, ea, eb', oka, okb', Bool.and_self]
         have := tail_norm (s1.chk true) w (Mpir.sub_n (view (s.h v)).d (view (s.h u)).d).1 (decide (us ≥ 0)) true (by simpa using hok1) rfl hbw sl (by simp; omega)
         simp only [sn, hvl, ← hvs, ← heq, chk_PTR, chk_h] at this
         exact fin _ _ ⟨this.ok, this.view, this.bwf, this.frame⟩
       · obtain ⟨_, _, sl, sn⟩ := Mpz.K.sub_n_val _ _ hLu hLv (by omega : (view (s.h u)).d.length = (view (s.h v)).d.length)
-        simp only [mpn_sub_n, chk_rd, chk_rdOk, ea, eb', oka, okb', Bool.and_self, chk_PTR]
+        simp only [mpn_sub_n, chk_rd, chk_rdOk, ea, eb', oka, okb', Bool.and_self]
         have := tail_norm (s1.chk true) w (Mpir.sub_n (view (s.h u)).d (view (s.h v)).d).1 (decide (us < 0)) true (by simpa using hok1) rfl hbw sl (by simp; omega)
         simp only [sn, hul, ← hus, chk_PTR, chk_h] at this
         exact fin _ _ ⟨this.ok, this.view, this.bwf, this.frame⟩
@@ -178,5 +226,171 @@ theorem aors_refines (isSub : Bool) (s : St) (w u v : Nat) (hs : s.ok = true)
   cases isSub
   · simp only [Bool.false_eq_true, if_false]; exact aors_aux s w u v _ hs hw hu hv rfl
   · simp only [if_true]; exact aors_aux s w u v _ hs hw hu hv (by simp)
+
+theorem Refines.of_grown {s s1 s2 : St} {w n : Nat} {m : Mpz.Mpz} (G : Grown s s1 w n)
+    (R : Refines s1 s2 w m) : Refines s s2 w m :=
+  ⟨R.ok, R.view, R.bwf, fun x hx => (R.frame x hx).trans (G.other x hx)⟩
+
+theorem view_limbs {o : Obj} (h : OWF o) : Limbs (view o).d := h.2.2.2.2.1
+theorem view_fit {o : Obj} (h : OWF o) : o.size.natAbs ≤ o.buf.alloc := by simpa [view] using h.2.2.1
+
+/-! ## mpz_set, mpz_neg, mpz_abs -/
+
+/-- `MPZ_REALLOC (w, |usize|); MPN_COPY (wp, up, |usize|); SIZ (w) = z` with |z| = |usize| -/
+theorem copy_refines (s : St) (w u : Nat) (z : Int) (hs : s.ok = true) (hw : OWF (s.h w)) (hu : OWF (s.h u))
+    (hz : z.natAbs = (s.h u).size.natAbs) :
+    let s1 := MPZ_REALLOC s w (s.h u).size.natAbs
+    Refines s ((MPN_COPY s1 (s1.PTR w) (s1.PTR u) (s.h u).size.natAbs).setSize w z) w
+      ⟨(Mpz.grow (view (s.h w)) (s.h u).size.natAbs).alloc, z, (view (s.h u)).d⟩ := by
+  intro s1
+  have G := MPZ_REALLOC_grown s w (s.h u).size.natAbs hw
+  obtain ⟨ea, oka⟩ := grown_rd G u (s.h u).size.natAbs hu (Nat.le_refl _)
+  have hul := view_d_length hu
+  rw [List.take_of_length_le (by omega)] at ea
+  have T := tail_take s1 w (view (s.h u)).d z (s1.rdOk (s1.PTR u) (s.h u).size.natAbs) (by rw [G.ok]; exact hs) oka
+    (G.bwf w hw.1) (view_limbs hu) (by rw [hul]; exact G.room) (by omega)
+  rw [List.take_of_length_le (by omega)] at T
+  have ha : (s1.h w).buf.alloc = (Mpz.grow (view (s.h w)) (s.h u).size.natAbs).alloc := G.alloc
+  rw [ha] at T
+  have ea' : s1.rd (s1.PTR u) (s.h u).size.natAbs = (view (s.h u)).d := ea
+  simp only [MPN_COPY, ea']
+  exact T.of_grown G
+
+theorem set_refines (s : St) (w u : Nat) (hs : s.ok = true) (hw : OWF (s.h w)) (hu : OWF (s.h u)) :
+    Refines s (mpz_set s w u) w (Mpz.set (view (s.h w)) (view (s.h u))) :=
+  copy_refines s w u (s.h u).size hs hw hu rfl
+
+theorem neg_refines (s : St) (w u : Nat) (hs : s.ok = true) (hw : OWF (s.h w)) (hu : OWF (s.h u)) :
+    Refines s (mpz_neg s w u) w (Mpz.neg (decide (u = w)) (view (s.h w)) (view (s.h u))) := by
+  unfold mpz_neg Mpz.neg
+  by_cases h : u = w
+  · subst h
+    simp only [bne_self_eq_false, Bool.false_eq_true, if_false, decide_true, Bool.not_true, St.SIZ]
+    refine ⟨by simpa using hs, ?_, by simpa using hw.1, fun x hx => setSize_other _ _ _ hx⟩
+    simp [view]
+  · have h' : (u != w) = true := by simpa using h
+    simp only [h', if_true, h, decide_false, Bool.not_false, St.SIZ]
+    exact copy_refines s w u (-(s.h u).size) hs hw hu (by simp)
+
+theorem abs_refines (s : St) (w u : Nat) (hs : s.ok = true) (hw : OWF (s.h w)) (hu : OWF (s.h u)) :
+    Refines s (mpz_abs s w u) w (Mpz.abs (decide (u = w)) (view (s.h w)) (view (s.h u))) := by
+  unfold mpz_abs Mpz.abs
+  by_cases h : u = w
+  · subst h
+    simp only [bne_self_eq_false, Bool.false_eq_true, if_false, decide_true, Bool.not_true, St.SIZ]
+    refine ⟨by simpa using hs, ?_, by simpa using hw.1, fun x hx => setSize_other _ _ _ hx⟩
+    simp [view, Int.natAbs_abs]
+  · have h' : (u != w) = true := by simpa using h
+    simp only [h', if_true, h, decide_false, Bool.not_false, St.SIZ]
+    exact copy_refines s w u ((s.h u).size.natAbs : Int) hs hw hu (Int.natAbs_natCast _)
+
+/-! ## mpz_set_ui, mpz_set_si -/
+
+/-- `dest->_mp_d[0] = v; SIZ = ±(v != 0)`: safe because alloc ≥ 1 -/
+theorem set1_refines (s : St) (w : Nat) (v : Nat) (neg : Bool) (hs : s.ok = true) (hb : BWF (s.h w).buf)
+    (h1 : 1 ≤ (s.h w).buf.alloc) (hv : v < B) :
+    Refines s ((s.store (s.PTR w) 0 v).setSize w (sgn neg (if v != 0 then 1 else 0))) w
+      ⟨(s.h w).buf.alloc, sgn neg (if v != 0 then 1 else 0), [v].take (if v != 0 then 1 else 0)⟩ := by
+  have T := tail_take s w [v] (sgn neg (if v != 0 then 1 else 0)) true hs rfl hb
+    (by intro x hx; simp at hx; omega) (by simpa using h1) (by rw [natAbs_sgn]; split <;> simp)
+  rw [natAbs_sgn] at T
+  simpa [St.store, St.chk] using T
+
+/-! ## mpz_add_ui, mpz_sub_ui -/
+
+theorem Refines.of_chk {s s' : St} {c : Bool} {w : Nat} {m : Mpz.Mpz} (R : Refines (s.chk c) s' w m) :
+    Refines s s' w m := ⟨R.ok, R.view, R.bwf, R.frame⟩
+
+/-- aors_ui.h:106-111 -/
+theorem aors_ui_sub_refines (isSub : Bool) (s : St) (w u : Nat) (d : List Nat) (vval : Nat) (hs : s.ok = true)
+    (hb : BWF (s.h w).buf) (hd : Limbs d) (hne : d ≠ []) (hv : vval < B) (hr : d.length ≤ (s.h w).buf.alloc)
+    (ea : s.rd (s.PTR u) d.length = d) (oka : s.rdOk (s.PTR u) d.length = true) :
+    Refines s (aors_ui_sub isSub s w (s.PTR w) (s.PTR u) d.length vval) w
+      ⟨(s.h w).buf.alloc, sgn (!isSub) (d.length - (if Mpz.topLimb (Mpir.sub_1 d vval).1 == 0 then 1 else 0)),
+        (Mpir.sub_1 d vval).1.take (d.length - (if Mpz.topLimb (Mpir.sub_1 d vval).1 == 0 then 1 else 0))⟩ := by
+  obtain ⟨_, _, sl, sn⟩ := Mpz.K.sub_1_val d vval hd hv hne
+  have hne' : (Mpir.sub_1 d vval).1 ≠ [] := by intro h; rw [h] at sn; simp at sn; exact hne (List.length_eq_zero_iff.mp sn.symm)
+  obtain ⟨hld, R⟩ := tail_strip s w (Mpir.sub_1 d vval).1 (!isSub) true hs rfl hb sl (by omega) hne'
+  unfold aors_ui_sub
+  simp only [mpn_sub_1, ea, oka]
+  simp only [sn] at hld R
+  simp only [hld] at R ⊢
+  exact R
+
+/-- aors_ui.h:79-114 on any state in which w has room for |usize| + 1 limbs and `PTR (u)[0, |usize|)` holds `d` -/
+theorem aors_ui_body_refines (isSub : Bool) (s1 : St) (w u : Nat) (usize : Int) (d : List Nat) (vval : Nat)
+    (hok1 : s1.ok = true) (hbw : BWF (s1.h w).buf) (hLu : Limbs d) (hul : d.length = usize.natAbs) (hv : vval < B)
+    (hroom : usize.natAbs + 1 ≤ (s1.h w).buf.alloc)
+    (ea : s1.rd (s1.PTR u) usize.natAbs = d) (oka : s1.rdOk (s1.PTR u) usize.natAbs = true) :
+    Refines s1 (aors_ui_body isSub s1 w u usize vval) w
+      (if usize.natAbs == 0 then ⟨(s1.h w).buf.alloc, sgn isSub (if vval != 0 then 1 else 0), [vval].take (if vval != 0 then 1 else 0)⟩
+       else if (if isSub then decide (usize < 0) else decide (usize ≥ 0)) then
+         ⟨(s1.h w).buf.alloc, sgn isSub (usize.natAbs + (Mpir.add_1 d vval).2),
+           ((Mpir.add_1 d vval).1 ++ [(Mpir.add_1 d vval).2]).take (usize.natAbs + (Mpir.add_1 d vval).2)⟩
+       else if usize.natAbs == 1 && d.headD 0 < vval then ⟨(s1.h w).buf.alloc, sgn isSub 1, [vval - d.headD 0]⟩
+       else ⟨(s1.h w).buf.alloc, sgn (!isSub) (usize.natAbs - (if Mpz.topLimb (Mpir.sub_1 d vval).1 == 0 then 1 else 0)),
+          (Mpir.sub_1 d vval).1.take (usize.natAbs - (if Mpz.topLimb (Mpir.sub_1 d vval).1 == 0 then 1 else 0))⟩) := by
+  unfold aors_ui_body
+  by_cases h0 : usize.natAbs = 0
+  · simp only [h0, beq_self_eq_true, if_true]
+    exact set1_refines s1 w vval isSub hok1 hbw (by omega) hv
+  · have h0' : (usize.natAbs == 0) = false := by simpa using h0
+    have hne : d ≠ [] := by intro h; rw [h] at hul; simp at hul; omega
+    simp only [h0', Bool.false_eq_true, if_false]
+    have SUB := aors_ui_sub_refines isSub s1 w u d vval hok1 hbw hLu hne hv (by omega)
+      (by rw [hul]; exact ea) (by rw [hul]; exact oka)
+    rw [hul] at SUB
+    by_cases hc : (if isSub = true then decide (usize < 0) else decide (usize ≥ 0)) = true
+    · -- add_1
+      rw [if_pos hc, if_pos hc]
+      obtain ⟨_, ac, al, an⟩ := Mpz.K.add_1_val _ vval hLu hv hne
+      simp only [mpn_add_1, ea, oka]
+      have := tail_carry s1 w (Mpir.add_1 d vval).1 (Mpir.add_1 d vval).2
+        (usize.natAbs + (Mpir.add_1 d vval).2) isSub true hok1 rfl hbw al
+        (by have := B_eq; omega) (by omega) (by omega)
+      simp only [an, hul] at this
+      exact this
+    · rw [if_neg hc, if_neg hc]
+      by_cases h1 : usize.natAbs = 1
+      · simp only [h1, beq_self_eq_true, if_true, Bool.true_and]
+        rw [h1] at ea oka hul SUB
+        obtain ⟨a, ha⟩ := List.length_eq_one_iff.mp hul
+        have hld : (s1.load (s1.PTR u) 0).1 = d.headD 0 := by
+          simp [St.load, ea, ha]
+        have hld2 : (s1.load (s1.PTR u) 0).2 = s1.chk true := by simp [St.load, oka]
+        rw [show s1.load (s1.PTR u) 0 = ((s1.load (s1.PTR u) 0).1, (s1.load (s1.PTR u) 0).2) from rfl]
+        simp only [hld, hld2]
+        by_cases hlt : d.headD 0 < vval
+        · simp only [hlt, if_true, decide_true]
+          have T := tail_take s1 w [vval - d.headD 0] (sgn isSub 1) true hok1 rfl hbw
+            (by intro x hx; simp at hx; omega) (by simp; omega) (by rw [natAbs_sgn]; simp)
+          rw [natAbs_sgn] at T
+          simp only [List.take_one, List.head?_cons] at T
+          simpa [St.store] using T
+        · simp only [hlt, if_false, decide_false, Bool.false_eq_true]
+          have SUB' := aors_ui_sub_refines isSub (s1.chk true) w u d vval (by simpa using hok1) hbw hLu hne hv
+            (by simp; omega) (by rw [hul]; exact ea) (by rw [hul]; exact oka)
+          rw [hul] at SUB'
+          exact SUB'.of_chk
+      · have h1' : (usize.natAbs == 1) = false := by simpa using h1
+        simp only [h1', Bool.false_eq_true, if_false, Bool.false_and]
+        exact SUB
+
+theorem aors_ui_refines (isSub : Bool) (s : St) (w u : Nat) (vval : Nat) (hs : s.ok = true)
+    (hw : OWF (s.h w)) (hu : OWF (s.h u)) (hv : vval < B) :
+    Refines s (aors_ui 1 isSub s w u vval) w (Mpz.aors_ui isSub (view (s.h w)) (view (s.h u)) vval) := by
+  have G := MPZ_REALLOC_grown s w ((s.h u).size.natAbs + 1) hw
+  obtain ⟨ea, oka⟩ := grown_rd G u (s.h u).size.natAbs hu (Nat.le_refl _)
+  have hul := view_d_length hu
+  rw [List.take_of_length_le (by omega)] at ea
+  have B1 := aors_ui_body_refines isSub _ w u (s.h u).size (view (s.h u)).d vval (by rw [G.ok]; exact hs) (G.bwf w hw.1)
+    (view_limbs hu) hul hv G.room ea oka
+  have halloc : (Mpz.grow (view (s.h w)) ((s.h u).size.natAbs + 1)).alloc =
+      ((MPZ_REALLOC s w ((s.h u).size.natAbs + 1)).h w).buf.alloc := G.alloc.symm
+  unfold aors_ui Mpz.aors_ui
+  simp only [St.SIZ]
+  have e1 : (view (s.h u)).size = (s.h u).size := rfl
+  rw [e1, halloc]
+  exact B1.of_grown G
 
 end Mpir.AllocSafe
